@@ -9,6 +9,8 @@
 package c17
 
 import (
+	"bytes"
+	"context"
 	"encoding/json"
 	"errors"
 	"fmt"
@@ -66,6 +68,8 @@ type RootD struct {
 	SubA   string        `json:"sub_a,omitempty"`
 	Short  string        `json:"short,omitempty"` // field tagged "id"
 	Long   string        `json:"long,omitempty"`  // field tagged "ID"
+	Token  string        `json:"token,omitempty"` // field tagged "-"
+	Dash   string        `json:"dash,omitempty"`  // field tagged "-,"
 	Any    *VD           `json:"any,omitempty"`
 	Row    *VD           `json:"row,omitempty"`  // kinds "row" / "prow": the root value is this Row / a pointer to it
 	Data   *VD           `json:"data,omitempty"` // kind "data": the root value is this value (a map[any]any, ...)
@@ -90,8 +94,14 @@ type Op struct {
 // SeqCase is a history. Names is the universe compared after every op (default: bigUniverse).
 // EnvSkip lists names for which EnvMap/Lookup agreement is not asserted while the name is bound
 // only by the root struct fallback (region of an open known finding).
+//
+// Prelude: before the history starts, the engine renders a small template with a multi-iteration
+// v-for that many times in the same goroutine (the Stack implementation shares a package-wide
+// pool of scope maps with the renderer); the model is unaffected: push/pop/set touch only the
+// innermost scope whatever the process did before.
 type SeqCase struct {
 	Root    RootD    `json:"root"`
+	Prelude int      `json:"prelude,omitempty"`
 	Names   []string `json:"names,omitempty"`
 	EnvSkip []string `json:"env_skip,omitempty"`
 	Ops     []Op     `json:"ops"`
@@ -100,13 +110,13 @@ type SeqCase struct {
 // The universes hold the names the ops bind plus names that are only ever read: both tags of the
 // pair "id"/"ID", and wrong-case spellings of tags and field names ("TAGGED", "tAGGED", "Id",
 // "PLAIN", "SUB"), which are neither a field name nor a tag and so must be absent unless bound.
-var bigUniverse = []string{"x", "y", "Plain", "tagged", "Tagged", "hidden", "List", "sub", "Sub", "any", "id", "ID", "Id", "TAGGED", "tAGGED", "PLAIN", "SUB", "ANY", "Title", "Note", "note", "Extra"}
+var bigUniverse = []string{"x", "y", "Plain", "tagged", "Tagged", "hidden", "List", "sub", "Sub", "any", "id", "ID", "Id", "TAGGED", "tAGGED", "PLAIN", "SUB", "ANY", "Title", "Note", "note", "Extra", "Token", "Dash", "TOKEN"}
 var rowUniverse = []string{"x", "Plain", "ID", "Title", "Note", "note", "Extra", "hidden"}
-var smallUniverse = []string{"x", "Plain", "tagged", "hidden", "id", "ID", "TAGGED"}
+var smallUniverse = []string{"x", "Plain", "tagged", "hidden", "id", "ID", "TAGGED", "Token", "Dash"}
 
 func (r RootD) data() any {
 	mk := func() rootT {
-		t := rootT{Plain: r.Plain, Tagged: r.Tagged, hidden: r.Hidden, Sub: subT{A: r.SubA}, Short: r.Short, Long: r.Long}
+		t := rootT{Plain: r.Plain, Tagged: r.Tagged, hidden: r.Hidden, Sub: subT{A: r.SubA}, Short: r.Short, Long: r.Long, Token: r.Token, Dash: r.Dash}
 		if r.List != nil {
 			t.List = append([]int{}, r.List...)
 		}
@@ -377,6 +387,9 @@ func compareStack(tag string, s *vuego.Stack, m *model, names []string, envSkip 
 	}
 	// every name of the merged environment must be one Lookup finds, with the same value
 	for _, k := range sortedKeys(env) {
+		if k == "-" {
+			continue // tag text of json:"-" fields: unspecified
+		}
 		want, _, wok := m.lookup(k)
 		emode := exact
 		if isStructVal(want) {
@@ -574,6 +587,39 @@ func checkReaders(tag string, s *vuego.Stack, path string, exp any, out string, 
 	return nil
 }
 
+// prelude renders a template whose v-for runs four iterations (with a nested two-iteration loop)
+// n times; the output is checked only for being the expected text.
+func prelude(n int) error {
+	for i := 0; i < n; i++ {
+		var buf bytes.Buffer
+		tpl := vuego.New().Fill(map[string]any{"xs": []any{"a", "b", "c", "d"}, "ys": []int{1, 2}})
+		if err := tpl.RenderString(context.Background(), &buf, `<ul><li v-for="x in xs">{{ x }}<i v-for="y in ys">{{ y }}</i></li></ul>`); err != nil {
+			return fmt.Errorf("prelude render: %v", err)
+		}
+		if got := textOnly(buf.String()); got != "a12b12c12d12" {
+			return fmt.Errorf("prelude render produced text %q, want %q", got, "a12b12c12d12")
+		}
+	}
+	return nil
+}
+
+// textOnly drops tags and white space (the prelude's markup is not what is being checked).
+func textOnly(html string) string {
+	var b strings.Builder
+	in := false
+	for _, r := range html {
+		switch {
+		case r == '<':
+			in = true
+		case r == '>':
+			in = false
+		case !in && r != ' ' && r != '\n' && r != '\t' && r != '\r':
+			b.WriteRune(r)
+		}
+	}
+	return b.String()
+}
+
 func checkSeq(c SeqCase) error {
 	names := c.Names
 	if len(names) == 0 {
@@ -582,6 +628,9 @@ func checkSeq(c SeqCase) error {
 	envSkip := map[string]bool{}
 	for _, n := range c.EnvSkip {
 		envSkip[n] = true
+	}
+	if err := prelude(c.Prelude); err != nil {
+		return err
 	}
 	stacks := []*vuego.Stack{c.Root.stack()}
 	models := []*model{newModel(c.Root)}
@@ -651,6 +700,9 @@ func pathThroughStruct(m *model, n string) bool {
 
 func classifySeq(c SeqCase) (bool, []string) {
 	cls := map[string]bool{"root=" + c.Root.Kind: true}
+	if c.Prelude > 0 {
+		cls[fmt.Sprintf("prelude=%d renders", c.Prelude)] = true
+	}
 	models := []*model{newModel(c.Root)}
 	cur := 0
 	mutations := 0
@@ -954,6 +1006,42 @@ func TestProp(t *testing.T) {
 	}
 	if okAll {
 		rec.Exhaustive(fmt.Sprintf("all op sequences of length 1..%d over a %d-op alphabet x %d root kinds (%d histories)", maxLen, len(alphabet(0)), len(enumRoots()), n))
+	}
+
+	// ---- family 1 after a prelude: every sequence of <= 5 ops of a 5-op alphabet (anonymous
+	// scopes, Set, Pop, Copy, switching stacks), run right after 1 and after 3 renders of a
+	// template with a multi-iteration v-for in the same goroutine.
+	pren, preok := 0, true
+	for _, renders := range []int{1, 3} {
+		var rec3 func(prefix []Op) bool
+		rec3 = func(prefix []Op) bool {
+			if len(prefix) > 0 {
+				pren++
+				if pren%shards == shard {
+					c := SeqCase{Root: RootD{Kind: "map", Map: map[string]VD{"x": vStr("rx")}}, Prelude: renders, Names: []string{"x", "y"}, Ops: append([]Op(nil), prefix...)}
+					nt, cls := classifySeq(c)
+					if !run.Each(rec, "prelude", c, nt, cls, checkSeq) {
+						return false
+					}
+				}
+			}
+			if len(prefix) == 5 {
+				return true
+			}
+			for _, op := range preludeAlphabet(len(prefix)) {
+				if !rec3(append(prefix, op)) {
+					return false
+				}
+			}
+			return true
+		}
+		if !rec3(nil) {
+			preok = false
+			break
+		}
+	}
+	if preok {
+		rec.Exhaustive(fmt.Sprintf("all op sequences of length 1..5 over {Push(nil), Set, Pop, Copy+use, swap} after 1 and after 3 engine renders with a multi-iteration v-for (%d histories)", pren))
 	}
 
 	// ---- family 2, exhaustive: every path of <= 3 (quick) / 4 (thorough) steps over the zoo
